@@ -288,7 +288,8 @@ class GroupOp(collections.namedtuple('GroupOp', 'rot trans cartrot indexmap')):
                 return optype, np.eye(self.rot.shape[0])
             # only interesting case is how to deal with is the mirror plane; find the angle of the mirror
             phi = 0.5*np.arctan2(self.cartrot[0,1]+self.cartrot[1,0], self.cartrot[0,0]-self.cartrot[1,1])
-            return optype, np.array([[np.cos(phi), -np.sin(phi)], [np.sin(phi), np.cos(phi)]])
+            # eigenvect[0] = direction along the mirror line, eigenvect[1] = its normal (vectors are the *rows*)
+            return optype, np.array([[np.cos(phi), np.sin(phi)], [-np.sin(phi), np.cos(phi)]])
         # otherwise, there's an axis to find:
         vmat = np.eye(3)
         vsum = np.zeros((3, 3))
